@@ -185,6 +185,20 @@ PROPS = {
         floors={"any": {"fill_calls": 20000, "blt_calls": 10000, "fill_boxes_calls": 20000, "labels:boxes_op_fmt": 300}},
         assumptions=["byte model written from the statement; the filler is taken modulo 2^bpp"],
     ),
+    "C03": dict(
+        level="exploration", monitors={"mon_c03": {"sources": ["mon_c03.c", "vf_req.c", "ref_pixel.c", "vf.c"]}},
+        runs=[dict(name="plain-guards", monitor="mon_c03", flavour="plain", cases={"quick": 12000, "thorough": 600000}),
+              dict(name="general-only", monitor="mon_c03", flavour="plain", config="general-only", env=GENERAL_ONLY, cases={"quick": 5000, "thorough": 250000}),
+              dict(name="asan", monitor="mon_c03", flavour="asan", cases={"quick": 3000, "thorough": 100000})],
+        rule="one case = 8 requests: composite32/composite with request rectangles at negative origins, partly/wholly outside, zero and up to 32767-wide sizes, 1..8-rectangle clips on destination, source and mask, "
+             "source clipping / client-clip flags on and off, alpha maps with their own clips on all three images; fill_boxes/fill_rectangles; composite_trapezoids/triangles, composite_glyphs(_no_mask) and the direct rasterisers; "
+             "destination formats of every depth (1,4,8,16,24,32,96,128 bpp). Oracles: compute_composite_region must equal the model intersection point by point (bitmap model) and return FALSE exactly when it is empty; "
+             "after every drawing call each bit of destination storage, row padding and alpha map outside the model region must be unchanged (bit-level snapshot diff on guard-paged storage); "
+             "marking requests (OP_SRC of an opaque solid) must leave the colour in every pixel of the region; evaluations = pixels + queries compared; a cell = (entry point, depth, clip classes, which clips active, position class)",
+        floors={"any": {"region_queries": 20000, "marking_cases": 5000, "cases_with_3plus_clip_rects": 3000, "cases_with_pixels_written": 10000, "labels:entry_bpp": 40,
+                        "cases_mask_alphamap_clip_active": 5, "cases_src_alphamap_clip_active": 20}},
+        assumptions=["the model intersection in harness/mon_c03.c is written from the statement", "for trapezoid/glyph entry points only 'nothing outside bounds and destination clip' is asserted"],
+    ),
 }
 
 # ---------------------------------------------------------------- MANIFEST texts
@@ -233,6 +247,11 @@ MANIFEST_TEXT["C19"] = dict(
     technique="model-based runtime monitor (byte model for fill/blt on guard-paged storage) + differential monitor (fill_boxes vs per-box compositing), 4 implementation chains, plain + ASan",
     level_text="Exploration: 10^5..10^7 calls over every depth, alignment, stride, operator, colour and destination format; fill/blt judged byte-for-byte against a model including everything outside the rectangle, fill_boxes judged against compositing.",
     level_note="trusted: byte model in harness/mon_blt.c; digest of defined destination bits for the differential part")
+
+MANIFEST_TEXT["C03"] = dict(
+    technique="model-based runtime monitor: bitmap model of the composite region vs pixman_compute_composite_region; bit-level write-footprint snapshots on guard-paged storage; must-write marking requests",
+    level_text="Exploration: 10^5..5*10^6 requests with multi-rectangle clips on every image and alpha map, every destination depth and all drawing entry points; the region query is compared point by point with a model and every bit outside the region must survive the call.",
+    level_note="trusted: the intersection model (grid_and_*) in harness/mon_c03.c; snapshot diff at bit granularity")
 
 NOT_CLAIMED = {p: "monitor not built yet in this round (design in DESIGN.md section 6); no claim is made" for p in
                ["C%02d" % i for i in range(1, 21)]}
